@@ -1344,6 +1344,55 @@ def _release_calls(u, fn):
     return out
 
 
+def owned_aliases(u, fn):
+    """Locals that hold a node's payload pointer exactly when the node owns it:
+        char *old = (item->type & cJSON_StringIsConst) ? NULL : item->string;
+    (one definition, a conditional with a NULL arm and an X->field arm, the condition a test of the ownership bit of that field
+    on the same X, the field on the clear side).  Releasing such a local is releasing X->field under its ownership test, with
+    bit and pointer captured together.  -> {decl id: X->field expression}"""
+    out = {}
+    defs = {}
+    for a in assignments(fn):
+        if is_ref(a['l']):
+            defs.setdefault(strip_casts(a['l'])['d'], []).append(a['r'] if a['op'] == '=' else None)
+    for d in fn.locals():
+        if 'init' in d:
+            defs.setdefault(d['d'], []).append(d['init'])
+    for d, rs in defs.items():
+        rs = [r for r in rs if r is None or not is_null_const(r)]
+        if len(rs) != 1 or rs[0] is None:
+            continue
+        r = strip_casts(rs[0])
+        if r.get('k') != 'cond':
+            continue
+        t_arm, e_arm = strip_casts(r['t']), strip_casts(r['e'])
+        c = strip_casts(r['c'])
+        neg = False
+        while c.get('k') == 'un' and c['op'] == '!':
+            c = strip_casts(c['e'])
+            neg = not neg
+        pc = cmp_parts(c)
+        if pc is not None and pc[2] == 0 and pc[1] in ('==', '!='):
+            if pc[1] == '==':
+                neg = not neg
+            c = strip_casts(pc[0])
+        # the arm taken when the bit is set / clear
+        set_arm, clear_arm = (e_arm, t_arm) if neg else (t_arm, e_arm)
+        if not (is_null_const(set_arm) or set_arm.get('null')) or clear_arm.get('k') != 'mem' or clear_arm['f'] not in FLAG_FOR_FIELD:
+            continue
+        X = expr_str(strip_casts(clear_arm['b']))
+        flag = FLAG_FOR_FIELD[clear_arm['f']]
+        okc = False
+        if c.get('k') == 'bin' and c['op'] == '&':
+            for (x, y) in ((c['l'], c['r']), (c['r'], c['l'])):
+                x0 = strip_casts(x)
+                if x0.get('k') == 'mem' and x0['f'] == 'type' and expr_str(strip_casts(x0['b'])) == X and flag in (strip_casts(y).get('m') or []):
+                    okc = True
+        if okc:
+            out[d] = clear_arm
+    return out
+
+
 def own5(units, R):
     """cJSON.c: every release of X->valuestring / X->child (cJSON_Delete) / X->string is reachable only through the
     clear edge of a test of the ownership bit describing that memory on the same X, and X->type is not modified
@@ -1353,6 +1402,31 @@ def own5(units, R):
     for fn in u.function_list:
         rel = [(c, e, deep) for (c, e, deep) in _direct_release_calls(u, fn) if e.get('k') == 'mem' and e['f'] in FLAG_FOR_FIELD
                and 'cJSON' in u.ty(strip_casts(e['b'])['ty'])['s']]
+        al = owned_aliases(u, fn)
+        captured = [(c, al[e['d']]) for (c, e, deep) in _direct_release_calls(u, fn) if e.get('k') == 'ref' and e.get('d') in al]
+        # a local that saved the payload pointer (char *old_key = item->string; ... release(old_key)): a release of X->field as it
+        # was when saved; the ownership test is judged below like that of a direct release
+        saved = {}
+        sdefs = {}
+        for a_ in assignments(fn):
+            if is_ref(a_['l']):
+                sdefs.setdefault(strip_casts(a_['l'])['d'], []).append(a_['r'] if a_['op'] == '=' else None)
+        for d_ in fn.locals():
+            if 'init' in d_:
+                sdefs.setdefault(d_['d'], []).append(d_['init'])
+        for d_, rs_ in sdefs.items():
+            rs_ = [r_ for r_ in rs_ if r_ is None or not is_null_const(r_)]
+            if len(rs_) == 1 and rs_[0] is not None:
+                r0_ = strip_casts(rs_[0])
+                if r0_.get('k') == 'mem' and r0_.get('arrow') and r0_['f'] in FLAG_FOR_FIELD and d_ not in al:
+                    saved[d_] = r0_
+        rel += [(c, saved[e['d']], deep) for (c, e, deep) in _direct_release_calls(u, fn) if e.get('k') == 'ref' and e.get('d') in saved
+                and 'cJSON' in u.ty(strip_casts(saved[e['d']]['b'])['ty'])['s']]
+        for (c, m) in captured:
+            n += 1
+            R.ob('OWN5', fn, c, 'release of %s honours %s' % (expr_str(m), FLAG_FOR_FIELD[m['f']]), True,
+                 'released through a local that holds the pointer only when the bit is clear (bit and pointer captured together)',
+                 key='release:%s' % expr_str(m))
         if not rel:
             continue
         cfg = fn.cfg()
@@ -1432,6 +1506,24 @@ def own6(units, R):
             continue
         rel = [(c, e) for (c, e, _d) in _release_calls(u, fn) if e.get('k') == 'mem' and e['f'] == 'string' and
                is_ref(e['b']) and strip_casts(e['b'])['d'] in {p['d'] for p in items}]
+        al = owned_aliases(u, fn)
+        rel += [(c, al[e['d']]) for (c, e, _d) in _release_calls(u, fn) if e.get('k') == 'ref' and e.get('d') in al and
+                al[e['d']]['f'] == 'string' and is_ref(al[e['d']]['b']) and strip_casts(al[e['d']]['b'])['d'] in {p['d'] for p in items}]
+        # a release of a local that saved it->string earlier (char *old_key = item->string) is a release of the item's key as well
+        sd = {}
+        for a_ in assignments(fn):
+            if is_ref(a_['l']):
+                sd.setdefault(strip_casts(a_['l'])['d'], []).append(a_['r'] if a_['op'] == '=' else None)
+        for d_ in fn.locals():
+            if 'init' in d_:
+                sd.setdefault(d_['d'], []).append(d_['init'])
+        for (c, e, _d) in _release_calls(u, fn):
+            if e.get('k') == 'ref' and e.get('d') in sd and e.get('d') not in al:
+                rs_ = [r_ for r_ in sd[e['d']] if r_ is None or not is_null_const(r_)]
+                if len(rs_) == 1 and rs_[0] is not None:
+                    r0_ = strip_casts(rs_[0])
+                    if r0_.get('k') == 'mem' and r0_['f'] == 'string' and is_ref(r0_['b']) and strip_casts(r0_['b'])['d'] in {p['d'] for p in items}:
+                        rel.append((c, r0_))
         if not rel:
             continue
         cfg = fn.cfg()
